@@ -26,10 +26,22 @@
   "literal value = constructor call".  Outside it the statement holds only up to the error KIND of a record literal
   with two failing entries (evaluation order = Go map order: C14) and needs a lemma on `NewPattern` normal forms.
 
+  LEAF HYPOTHESES DISCHARGED FROM C12 (last section, `…_inrange`): `JsonRenderable` mentions C13's `WF` for literal
+  values (extension leaves whose text parses back) and `JsonSemNormal` asks that the text of every decimal / ip literal
+  VALUE parses back.  Both follow from the purely structural, decidable `JsonRenderableInRange` / `JsonSemNormalInRange`
+  (literal values canonical with leaves in C12's proved range: int64 longs / decimals / durations, datetimes from
+  `minDatetime` on, valid IPv4 and IPv6 addresses / prefixes that are not IPv4-mapped) by `C12_decimal_roundtrip`,
+  `C12_duration_roundtrip`, `C12_datetime_roundtrip_partial`, `C12_ip_roundtrip_iff` (IPv4: `C12_ip_roundtrip_partial`,
+  IPv6: `C12_ip_roundtrip_v6_partial`); the `_inrange` corollaries carry no parse∘print hypothesis.
+  Still outside: literal values holding a first-day datetime or an IPv4-mapped IPv6 address — the two open defects of
+  cedar-go, for which the text form provably does NOT parse back (`C12_datetime_first_day_unparseable`,
+  `C12_ip_4in6_unparseable`, `C13_leaf_outside_range_rejected`).  NOTE these restrictions bite only where the literal is
+  a VALUE node (programmatic ASTs); a parsed policy has constructor calls `ip("…")`, not values.
+
   NOT PROVED HERE (direct oracle only, harness/cmd/vh/c09.go): agreement with the TEXT codec (needs the parser /
   printer models of C07 / C08).
 -/
-import CedarGoProofs.Lemmas.C09h
+import CedarGoProofs.Lemmas.C09Leaves
 namespace CedarGo
 open JsonModel
 
@@ -94,6 +106,66 @@ example : ({ c09Example with conditions := [(true, .binop .eq (.lit (.decimal 15
 
 /-- the identifications are visible on the example: the annotations come back by key -/
 example : (normP c09Example).annotations = [("a", "b"), ("id", "x")] := by decide +kernel
+
+/-! ### Leaf hypotheses discharged from C12 (no parse∘print hypothesis left) -/
+
+/-- `JsonRenderable` with "literal values are `WF`" replaced by "literal values are canonical (sets duplicate-free, records
+    key-sorted) and their leaves in C12's range": purely structural, see `renderableRangeE` -/
+def Policy.JsonRenderableInRange (p : Policy) : Prop := renderableRangeP p = true
+def Expr.JsonRenderableInRange (e : Expr) : Prop := renderableRangeE e = true
+/-- `JsonSemNormal` with "decimal / ip literal values whose text parses back" replaced by "decimal literal values in int64
+    range, ip literal values valid (IPv4 or IPv6) and not IPv4-mapped": purely structural, see `semNormalRangeE` -/
+def Policy.JsonSemNormalInRange (p : Policy) : Prop := p.conditions.all (fun c => semNormalRangeE c.2) = true
+instance (p : Policy) : Decidable p.JsonRenderableInRange := by unfold Policy.JsonRenderableInRange; infer_instance
+instance (e : Expr) : Decidable e.JsonRenderableInRange := by unfold Expr.JsonRenderableInRange; infer_instance
+instance (p : Policy) : Decidable p.JsonSemNormalInRange := by unfold Policy.JsonSemNormalInRange; infer_instance
+
+/-- **C12 ⟹ the fragments**: the structural predicates imply the ones the `_partial` theorems use. -/
+theorem C09_renderable_of_inRange (p : Policy) (h : p.JsonRenderableInRange) : p.JsonRenderable :=
+  renderableP_of_range p h
+theorem C09_semNormal_of_inRange (p : Policy) (h : p.JsonSemNormalInRange) : p.JsonSemNormal :=
+  semNormal_conditions_of_range p h
+
+theorem C09_expr_json_roundtrip_inrange (e : Expr) (h : e.JsonRenderableInRange) :
+    ∃ n, decodeNode (exprToJ e) = .ok n ∧ nodeToExpr n = .ok (normE e) :=
+  C09_expr_json_roundtrip_partial e (renderableE_of_range e h)
+
+theorem C09_json_roundtrip_inrange (p : Policy) (h : p.JsonRenderableInRange) :
+    ∃ p', fromJ (toJ p) = .ok p' ∧ JsonEquiv p' p :=
+  C09_json_roundtrip_partial p (C09_renderable_of_inRange p h)
+
+theorem C09_json_roundtrip_keeps_inrange (p p' : Policy) (h : p.JsonRenderableInRange) (hd : fromJ (toJ p) = .ok p') :
+    p'.effect = p.effect ∧ p'.principal = p.principal ∧ p'.action = p.action ∧ p'.resource = p.resource ∧
+    p'.conditions.map (·.1) = p.conditions.map (·.1) :=
+  C09_json_roundtrip_keeps_partial p p' (C09_renderable_of_inRange p h) hd
+
+theorem C09_policyset_json_roundtrip_inrange (ps : List (PolicyID × Policy)) (h : ∀ ip ∈ ps, ip.2.JsonRenderableInRange) :
+    setFromJ (setToJ ps) = .ok (sortKV (ps.map fun ip => (ip.1, normP ip.2))) :=
+  C09_policyset_json_roundtrip_partial ps (fun ip hip => C09_renderable_of_inRange ip.2 (h ip hip))
+
+/-- **All encodings authorize alike**, no hypothesis about literal texts: for every policy in the structural fragments the
+    policy decoded from the JSON encoding has the same effect and is satisfied / unsatisfied / erroring exactly like
+    the original in every environment. -/
+theorem C09_encodings_authorize_alike_inrange (p p' : Policy) (hr : p.JsonRenderableInRange) (hs : p.JsonSemNormalInRange)
+    (hd : fromJ (toJ p) = .ok p') (env : Env) :
+    p'.effect = p.effect ∧ evalBool (policyToExpr p') env = evalBool (policyToExpr p) env ∧
+    evalBool (compile p') env = evalBool (compile p) env :=
+  C09_encodings_authorize_alike_partial p p' (C09_renderable_of_inRange p hr) (C09_semNormal_of_inRange p hs) hd env
+
+/-- in particular a decimal literal VALUE and the constructor call JSON writes for it evaluate alike for EVERY int64
+    decimal, and an ip literal value for every valid IPv4 / IPv6 address or prefix that is not IPv4-mapped -/
+theorem C09_literal_value_is_constructor_call (env : Env) :
+    (∀ d, InI64 d → eval (normE (.lit (.decimal d))) env = eval (.lit (.decimal d)) env) ∧
+    (∀ a : IPNet, a.Valid → ¬ a.Is4In6 → eval (normE (.lit (.ip a))) env = eval (.lit (.ip a)) env) :=
+  ⟨fun d h => eval_normE _ env (semNormalE_of_range _ (by simpa [semNormalRangeE] using h)),
+   fun a hv h4 => eval_normE _ env (semNormalE_of_range _ (by simp [semNormalRangeE, ipInRange, hv, h4]))⟩
+
+example : c09Example.JsonRenderableInRange := by decide +kernel
+example : ({ c09Example with conditions := [(true, .binop .eq (.lit (.decimal 15000)) (.record [("a", .lit (.ip ⟨false, 1, 32⟩)),
+    ("b", .lit (.set [.datetime 0, .duration minI64, .ip ⟨true, 1, 64⟩])), ("c", .var .context), ("d", .lit (.ip ⟨true, 1, 128⟩))]))] } : Policy).JsonRenderableInRange ∧
+    ({ c09Example with conditions := [(true, .binop .eq (.lit (.decimal 15000)) (.record [("a", .lit (.ip ⟨false, 1, 32⟩)),
+    ("b", .lit (.set [.datetime 0, .duration minI64, .ip ⟨true, 1, 64⟩])), ("c", .var .context), ("d", .lit (.ip ⟨true, 1, 128⟩))]))] } : Policy).JsonSemNormalInRange := by
+  decide +kernel
 
 /-! ### where the full statement fails -/
 
